@@ -46,6 +46,43 @@ def scenario(rng, idx):
     return {"search": s, "replace": r, "tree": tree, "src": src, "dst": dst, "occupant": occ, "kind": kind}
 
 
+def nested_scenario(rng, idx):
+    """source AND occupant sit inside a directory (one or two levels) that the same plan renames as well, so the
+    place the entry finally lands in does not exist yet when the plan is checked"""
+    swords, rwords = gen.pick_terms(rng, 2, 2)
+    style = rng.choice(["snake", "kebab", "camel", "pascal"])
+    s, r = gen.render(style, swords), gen.render(style, rwords)
+    occ = ["file", "symlink", "emptydir", "dir"][idx % 4]
+    kind = rng.choice(["file", "file", "dir"])
+    depth = 1 + idx % 2
+    top = s + "_pkg"
+    tree = {top: ("d", 0o755)}
+    base = top
+    if depth == 2:
+        base = top + "/inner_" + s
+        tree[base] = ("d", 0o755)
+    ext = ".txt" if kind == "file" else ""
+    src, dst = f"{base}/{s}{ext}", f"{base}/{r}{ext}"
+    if kind == "file":
+        tree[src] = ("f", b"source without the term\n", 0o644)
+    else:
+        tree[src] = ("d", 0o755)
+        tree[src + "/inner.txt"] = ("f", b"inner of source\n", 0o644)
+    if occ == "file":
+        tree[dst] = ("f", b"precious occupant\n", 0o600)
+    elif occ == "emptydir":
+        tree[dst] = ("d", 0o755)
+    elif occ == "dir":
+        tree[dst] = ("d", 0o755)
+        tree[dst + "/keep.txt"] = ("f", b"kept\n", 0o644)
+    else:
+        tree[dst] = ("l", "somewhere")
+    tree["unrelated.md"] = ("f", b"nothing here\n", 0o644)
+    extra = [("d", top, r + "_pkg")] + ([("d", base, top + "/inner_" + r)] if depth == 2 else [])
+    return {"search": s, "replace": r, "tree": tree, "src": src, "dst": dst, "occupant": "nested_" + occ, "kind": kind,
+            "extra_rens": extra}
+
+
 CASE_OCCUPANTS = ["file", "symlink_to_source", "symlink", "emptydir", "dir", "none"]
 
 
@@ -153,7 +190,7 @@ def run_cli(ctx, sc):
         moved = {a for a, _ in res["renames"]}
         if sc["dst"] not in moved:
             occ_untouched = before.get(sc["dst"]) == after.get(sc["dst"])
-            if sc["occupant"] in ("dir", "caseonly_dir"):
+            if sc["occupant"] in ("dir", "caseonly_dir", "nested_dir"):
                 occ_untouched = occ_untouched and before.get(sc["dst"] + "/keep.txt") == after.get(sc["dst"] + "/keep.txt")
     res["occupant_untouched"] = occ_untouched
     res["unchanged"] = before == after
@@ -178,7 +215,8 @@ def run(ctx):
     ctx.cov["rule"] = ("scenarios: planned rename destination occupied by file / empty dir / non-empty dir / symlink / nothing, "
                        "source file or directory, at root or nested, 4 styles, plus chains (replacement contains the term), plus "
                        "destinations that differ from the source only by letter case and are occupied by a file / directory / "
-                       "symlink elsewhere / symlink to the source itself; "
+                       "symlink elsewhere / symlink to the source itself, plus occupied destinations one or two levels inside a "
+                       "directory that the same plan renames; "
                        "each run through the CLI (plan + apply) and through applytree (model correspondence). "
                        "non-trivial = destination occupied or chain; distinct = (terms, shape)")
     ctx.assumptions += ["POSIX rename(2) semantics as in RModel.Model.Fs", "case-insensitive filesystems not modelled"]
@@ -190,13 +228,13 @@ def run(ctx):
     rng = ctx.rng
     n = 200 if ctx.thorough else 50
     scs = ([scenario(rng, i) for i in range(n)] + [chain_scenario(rng) for _ in range(n // 5)]
-           + [caseonly_scenario(rng, i) for i in range(n // 2)])
+           + [caseonly_scenario(rng, i) for i in range(n // 2)] + [nested_scenario(rng, i) for i in range(n // 2)])
 
     # correspondence: a by-construction plan (rename src -> dst) through applytree
     reqs = []
     for sc in scs:
         kind = "d" if sc["kind"] == "dir" else "f"
-        rens = [(kind, sc["src"], sc["dst"])]
+        rens = [(kind, sc["src"], sc["dst"])] + sc.get("extra_rens", [])
         if sc["occupant"] == "chain":
             ch = sc["chain"]
             rens = [("f", ch[i], ch[i + 1]) for i in range(len(ch) - 1)]
